@@ -6,7 +6,7 @@
 #  - bin/check Cxx --repo /tmp/seedrepo must print VIOLATION
 set -u
 P=$1; OUT=${2:-/tmp/seedout-$P}; NAME=${3:-$P}; V=$(cd "$(dirname "$0")/.." && pwd); S=/tmp/seedrepo
-D=$V/seeded/$NAME; mkdir -p $D; cp $OUT/patch.diff $OUT/meta.json $D/ 2>/dev/null; cp $OUT/demo.* $D/ 2>/dev/null
+D=$V/seeded/$NAME; mkdir -p $D; find $OUT -maxdepth 1 -type f -size -400k -exec cp {} $D/ \; 2>/dev/null
 LOG=$D/verify.log; : > $LOG
 export OMPI_ALLOW_RUN_AS_ROOT=1 OMPI_ALLOW_RUN_AS_ROOT_CONFIRM=1
 git -C $S checkout -q -- . ; git -C $S checkout -q --detach $(git -C /repo rev-parse HEAD) 2>>$LOG
@@ -17,7 +17,10 @@ git -C $S apply $D/patch.diff 2>>$LOG || { echo "PATCH DOES NOT APPLY" | tee -a 
 ( cd $S/_build && cmake --build . --target build_tests -j${SEED_J:-12} > /tmp/seed_build_$P.log 2>&1 ); echo "build_tests with patch: exit $?" | tee -a $LOG
 ( cd $S/_build && ctest -j${SEED_J:-8} --timeout 900 -E '^pythontests' > /tmp/seed_ctest_$P.log 2>&1 ); echo "ctest (without python tests) with patch: exit $? : $(grep 'tests passed' /tmp/seed_ctest_$P.log)" | tee -a $LOG
 grep -E '\*\*\*Failed|\*\*\*Timeout|\*\*\*Exception' /tmp/seed_ctest_$P.log | tee -a $LOG
-if git -C $S diff --name-only | grep -q '^python/\|dune/python'; then echo "NOTE: patch touches python files: run pythontests from /repo/_build separately" | tee -a $LOG; fi
+if git -C $S diff --name-only | grep -q '^python/'; then
+  ( cd /repo/_build && PYTHONPATH=$S/python:${PYTHONPATH:-} ./run-in-dune-env python3 /repo/dune/python/test/pythontests.py > /tmp/seed_py_$P.log 2>&1 ); echo "pythontests.py with the patched python package first on PYTHONPATH: exit $?" | tee -a $LOG
+fi
+if git -C $S diff --name-only | grep -q 'dune/python'; then echo "NOTE: patch touches C++ binding headers (used by JIT-compiled modules only): the python tests were run against the patched headers by the seeding agent (see meta.json what_you_ran)" | tee -a $LOG; fi
 ( cd $V && timeout 3000 bin/check $P --repo $S 2>&1 | grep -E 'VIOLATION|KNOWN-FINDING|done rc' ) | tee -a $LOG
 git -C $S checkout -q -- .
 python3 $V/tools/extract_params.py /repo
